@@ -2,7 +2,8 @@
    validations precede all work, so a rejected call has done nothing; the threshold validator
    generated from validation.py accepts exactly the documented ranges.                    *)
 From Coq Require Import ZArith Bool List String Lia.
-From SSJ Require Import F64 PyNum ValidationGen SkeletonLang SkeletonGen Skeleton PyFacts ValidationFacts.
+From SSJ Require Import F64 PyNum ValidationGen SkeletonLang SkeletonGen Skeleton PyFacts ValidationFacts
+     Measures ValidationFloat.
 Import ListNotations.
 Open Scope string_scope.
 
@@ -59,3 +60,25 @@ Proof.
   rewrite Hc in H. exact H.
 Qed.
 Print Assumptions C15_no_return_before_validation.
+
+(* float thresholds: validate_threshold states its range tests positively (`if not threshold >= 0`, ...), so
+   it accepts exactly the documented ranges for EVERY binary64 value -- NaN is rejected (every ordered
+   comparison with NaN is False), -0.0 counts as 0, +inf is above every upper bound.  fleb / fltb are the
+   IEEE comparisons of Num/F64.v, f_zero = +0.0, f_one = 1.0; the comparison with 1.0 needs f to be a double
+   (valid_binary), the other parts hold for every spec_float. *)
+From Coq Require Import SpecFloat.
+Theorem C15_threshold_float_ranges :
+  forall f : f64,
+  (validate_threshold (PFloat f) (PStr "EDIT_DISTANCE") = ok <-> fleb f_zero f = true) /\
+  (validate_threshold (PFloat f) (PStr "OVERLAP") = ok <-> fltb f_zero f = true) /\
+  (forall m, String.eqb m "EDIT_DISTANCE" = false -> String.eqb m "OVERLAP" = false ->
+             valid_binary prec emax f = true ->
+             (validate_threshold (PFloat f) (PStr m) = ok <-> fltb f_zero f = true /\ fleb f f_one = true)) /\
+  (forall m, validate_threshold (PFloat f) (PStr m) = ok \/ validate_threshold (PFloat f) (PStr m) = rejected).
+Proof. exact threshold_float_ranges. Qed.
+Print Assumptions C15_threshold_float_ranges.
+
+Theorem C15_threshold_nan_rejected :
+  forall m : string, validate_threshold (PFloat S754_nan) (PStr m) = rejected.
+Proof. exact threshold_nan_rejected. Qed.
+Print Assumptions C15_threshold_nan_rejected.
